@@ -11,6 +11,7 @@ N6  `for x in (a, b): body` (2..4 simple elements, no break/continue/yield, x no
 N7  `x = self.a.b` / `push = stack.append` bound once at function top level, attribute not re-bound in the function
                                                     ->  the attribute expression is substituted for x
 N11 `for x in chain((a,), it): body` -> body[x:=a]; for x in it: body
+N16 `x = x + e` -> `x += e`
 N15 a local only bound to k-tuple displays and only read as `*x` / `x[const]` -> k locals
 N14 `for x in iter(f, sentinel): body` -> `while True: x = f(); if x is sentinel: break; body`
 N13 `Class.method(obj, args)` of a package class -> `obj.method(args)`
@@ -426,6 +427,10 @@ class Normalizer:
                     body = [_loc(ast.If(test=c_, body=body, orelse=[]), s)]
                 return [_loc(ast.For(target=s.target, iter=gen.iter, body=body, orelse=[], type_comment=None), s)]
             return _comp_to_loop(g.generators, [_loc(bind, s)] + s.body, s)
+        # N16: `x = x + e` / `x = x - e` on a plain name -> augmented assignment
+        if isinstance(s, ast.Assign) and len(s.targets) == 1 and isinstance(s.targets[0], ast.Name) and isinstance(s.value, ast.BinOp) \
+                and isinstance(s.value.op, (ast.Add, ast.Sub)) and isinstance(s.value.left, ast.Name) and s.value.left.id == s.targets[0].id:
+            return [_loc(ast.AugAssign(target=ast.Name(id=s.targets[0].id, ctx=ast.Store()), op=s.value.op, value=s.value.right), s)]
         # N14: `for x in iter(f, sentinel): body` -> while True: x = f(); if x is/== sentinel: break; body
         if isinstance(s, ast.For) and isinstance(s.iter, ast.Call) and isinstance(s.iter.func, ast.Name) and s.iter.func.id == 'iter' and len(s.iter.args) == 2 \
                 and not s.iter.keywords and not s.orelse and isinstance(s.iter.args[1], ast.Constant):
